@@ -125,9 +125,28 @@ CALLERS = [
 ]
 
 
+# thorough tier: every callee with scalar dummies x every compatible combination of actuals
+CALLEE_SIG = {"elem_idx": "ri", "idx_elem": "ir", "addn": "rI", "expr_in": "Rr", "clash": "r",
+              "clash2": "rI", "usemod": "r", "two_el": "rr", "loopel": "rI", "condret": "rI",
+              "earlyret": "rI", "lastret": "rI", "midret": "rI"}
+POOLS = {"r": ["t", "u", "a(n)", "a(m)", "c(n,m)", "a(ia(1))", "garr(1)", "b(kout)"],
+         "i": ["n", "m", "kout", "ia(1)"],
+         "I": ["n", "m + 1", "kout", "ia(2)", "2"],
+         "R": ["t", "u * 2.0", "a(n)", "1.5"]}
+
+
+def cross_callers():
+    res = []
+    for nm, sig in CALLEE_SIG.items():
+        for combo in itertools.product(*[POOLS[c] for c in sig]):
+            res.append(([nm], [f"call {nm}({', '.join(combo)})", "kout = kout + 1"]))
+    return res
+
+
 def items(tier):
     out = []
-    for k, (used, body) in enumerate(CALLERS):
+    callers = CALLERS + (cross_callers() if tier != "quick" else [])
+    for k, (used, body) in enumerate(callers):
         src = MOD_HEAD + "".join("  " + l + "\n" for l in ["x = 0.25", "k = 1"] + body) + \
             "end subroutine s\n"
         for nm in used:
@@ -173,16 +192,61 @@ def _set_data(r):
 
 
 # ------------------------------------------------------------ known findings
+def _names_in(e):
+    out = set()
+    if isinstance(e, dict):
+        if e.get("k") in ("ref", "aref"):
+            out.add(e["name"])
+        for v in e.values():
+            out |= _names_in(v)
+    elif isinstance(e, list):
+        for x in e:
+            out |= _names_in(x)
+    return out
+
+
+def _calls(body):
+    for st in body:
+        if st["k"] == "call":
+            yield st
+        for key in ("body", "then", "else"):
+            if key in st:
+                yield from _calls(st[key])
+
+
+def _writes_formal(sub, fname):
+    def walk(body):
+        for st in body:
+            if st["k"] == "assign" and st["lhs"].get("name") == fname:
+                return True
+            if st["k"] == "loop" and st["var"] == fname:
+                return True
+            if any(walk(st[key]) for key in ("body", "then", "else") if key in st):
+                return True
+        return False
+    return walk(sub["body"])
+
+
 def m_index_modified(rec, clause, detail, finding):
     '''an array-element actual a(i) is substituted textually, so when the callee
-    changes a variable used in the subscript (also passed to it) the inlined
-    code addresses a different element than the call did'''
+    changes a variable used in the subscript (passed to it as another argument)
+    the inlined code addresses a different element than the call did'''
     if clause not in ("SameObservable", "NoNewUndefined"):
         return False
-    body = rec["id"].split("|", 1)[1]
-    return any(x in body for x in ("elem_idx(a(n), n)", "elem_idx(a(i), i)", "elem_idx(a(n + m), m)",
-                                   "idx_elem(n, a(n))", "idx_elem(ia(1), a(ia(1)))",
-                                   "idx_elem(m, c(m, n))", "iarr(ia, a(ia(1)))"))
+    case = rec["case"]
+    for call in _calls(case["progs"][0]["body"]):
+        sub = case["subs"].get(call["name"])
+        if not sub:
+            continue
+        for k, arg in enumerate(call["args"]):
+            if arg.get("k") != "aref":
+                continue
+            idxvars = _names_in(arg["idx"])
+            for k2, other in enumerate(call["args"]):
+                if k2 != k and other.get("k") in ("ref", "aref") and other["name"] in idxvars \
+                        and _writes_formal(sub, sub["formals"][k2]["name"]):
+                    return True
+    return False
 
 
 MATCHERS = {"element-actual-index-modified": m_index_modified}
